@@ -376,6 +376,28 @@ def eval_block(block, acc):
     ents = C.entries()
     kind = block[0]
     quick = block[-1]
+    if kind == "alias":
+        # omitted array attributes are reported as lists: a caller may edit such a list; the next construction that
+        # omits the attribute must still encode zeros
+        for e in ents:
+            if not e.routed or C.invalid_types(e.pdict) or K.route_kwargs(e) is None or "A2" not in repr(e.pdict):
+                continue
+            for pbf in (True, False):
+                kw = {n: 1 for n in C._size_fields(e.pdict)}
+                try:
+                    m1 = K.build_kw(e, kw, pbf)
+                    for k, v in m1.__dict__.items():
+                        if isinstance(v, list) and v:
+                            v[0] = (v[0] + 5) % 256
+                            v[-1] = 9
+                except Exception:  # noqa: BLE001
+                    pass
+                st, out = judge_build(e, kw, pbf, "omitted_after_caller_edited_a_reported_list")
+                acc.evaluations += 1
+                acc.outcomes[("alias", st)] += 1
+                for key, detail in out:
+                    acc.violation(key, {"kind": "build", "entry": e.label, "kw": _jkw(kw), "pbf": pbf, "what": "omitted_after_caller_edited_a_reported_list"}, detail)
+        return
     if kind == "afterfail":
         # ~1,000 operations that fail inside a group, then every keyword-constructible definition is rebuilt
         # from its reported values in the same process
@@ -417,7 +439,7 @@ def run_tier(tier, t0):
     blocks = [("pair", i, fname, q) for (t, s), (i, fname, _) in sorted(pairs.items(), key=lambda kv: (kv[0][0], str(kv[0][1])))]
     idx = list(range(len(ents)))
     blocks += [("entries", idx[i::96], q) for i in range(96)]
-    blocks += [("afterfail", q)]
+    blocks += [("afterfail", q), ("alias", q)]
     acc = engine.sweep(blocks, eval_block)
     nkw = sum(1 for e in ents if e.routed and not C.invalid_types(e.pdict) and K.route_kwargs(e) is not None)
     engine.finish(
